@@ -138,7 +138,20 @@ def make_pair(seed, i):
             log.append({"site": "attribute-on-standard-element", "name_class": "standard-name" if nm in STD_ATTRS else "random-name", "name": nm, "kind": "attribute-" + where, "form": "root-prefix"})
         return items
 
-    hooks = {"root_attrs": [("xmlns:fx", FNS)], "insert": insert, "attrs": attrs}
+    # foreign child elements INSIDE standard leaf elements (strings, numbers, blobs), in front of or behind the text
+    leaf_budget = [plan_r.choice([0, 0, 1, 2, 3])]
+
+    def leaf(tag):
+        if leaf_budget[0] > 0 and plan_r.random() < 0.06:
+            leaf_budget[0] -= 1
+            nm = plan_r.choice(STD_NAMES) if plan_r.random() < 0.5 else "note"
+            el = '<fx:%s type="String">%s</fx:%s>' % (nm, plan_r.choice(["en", "7", "", "x y"]), nm)
+            where = plan_r.choice(["front", "behind"])
+            log.append({"site": "inside-leaf:" + where, "name_class": "standard-name" if nm != "note" else "random-name", "name": nm, "kind": "child-of-" + tag, "form": "root-prefix"})
+            return (el, "") if where == "front" else ("", el)
+        return ("", "")
+
+    hooks = {"root_attrs": [("xmlns:fx", FNS)], "insert": insert, "attrs": attrs, "leaf": leaf}
     if plan_r.random() < 0.4:
         hooks["root_attrs"].append(("fx:note", "foreign attribute on the root"))
         log.append({"site": "root-attribute", "name_class": "attribute", "name": "note", "kind": "attribute", "form": "root-prefix"})
